@@ -46,6 +46,11 @@ def cases(d):
         else:
             big["w"] -= 1
             big["init"] = sem.wrap(big["init"], big["w"], big["signed"])
+    cls = {"name": "T", "fields": fs}
+    if d.chance(35):
+        # list elements named by constant subscripts in hard and soft statements (rand sets then also merge through the
+        # subscript path)
+        gen.add_list(d, fs, cls, 8)
     g = gen.G(d, fs, en)
     blocks = []
     for b in range(d.randint(1, 2)):
@@ -66,7 +71,8 @@ def cases(d):
             for _ in range(d.randint(1, 2)):
                 inl.append(gen_soft_stmt(d, g, 1))
             calls.append({"kind": "randomize_with", "seed": d.seed(), "inline": inl})
-    prog = {"enums": en, "classes": [{"name": "T", "fields": fs, "blocks": blocks}]}
+    cls["blocks"] = blocks
+    prog = {"enums": en, "classes": [cls]}
     return {"prog": prog, "calls": calls}
 
 
@@ -111,6 +117,9 @@ def run_case(case):
     names = [f["name"] for f in rf]
     env0 = {f["name"]: f["init"] for f in fields}
     info = {"conflict": False, "calls": 0}
+    if not all(sem.well_formed(s_) for b in cls["blocks"] for s_ in b["stmts"]) or \
+            not all(sem.well_formed(s_) for c_ in case["calls"] for s_ in (c_.get("inline") or [])):
+        return [], info          # not a generated shape (left behind by structural reduction)
     reset_library()
     try:
         ns = flat.build(prog)
